@@ -1078,7 +1078,7 @@ class yanny(OrderedDict):
         #
         # Double empty braces get replaced with empty quotes
         #
-        double_braces = re.compile(r'\{\s*\{\s*\}\s*\}')
+        double_braces = re.compile(r'(?<!\S)\{\s*\{\s*\}\s*\}(?!\S)')
         if len(lines) > 0:
             for line in lines.split('\n'):
                 if len(line) == 0:
